@@ -17,6 +17,13 @@ Theorem C08_answered_exactly_once : forall s f o,
 Proof. intros s f o. split; intro H; apply w_answered_once; try exact H; apply tables_ok. Qed.
 Print Assumptions C08_answered_exactly_once.
 
+(* ... and so for ANY table of registered callbacks - also callbacks the user registers for streams outside the shipped catalogue,
+   where no abort function SxF0 exists (then S9F5 answers a failing callback) - as long as each way of returning is the secondary *)
+Theorem C08_any_registered_callbacks : forall tab s f o, table_ok tab = true -> possible tab s f o = true ->
+  answered_once s f (dispatch tab s f true o) = true.
+Proof. exact w_answered_once. Qed.
+Print Assumptions C08_any_registered_callbacks.
+
 (* no W-bit: silence exactly when nothing is registered for the message *)
 Theorem C08_no_wbit_silent_iff : forall tab s f k, dispatch tab s f false (OReturn k) = [] <-> (lookup_cb tab s f = None \/ k = KNone).
 Proof. exact now_silent_iff. Qed.
@@ -31,5 +38,6 @@ Print Assumptions C08_reply_without_wbit_refuted.
 Example C08_examples :
   dispatch equipment_callbacks 1 3 true (OReturn (KReply 1 4)) = [RSec 1 4] /\ dispatch equipment_callbacks 1 3 true ORaise = [RAbort 1] /\
   dispatch equipment_callbacks 99 1 true ORaise = [RS9F5] /\ dispatch host_callbacks 6 11 true (OReturn (KReply 6 12)) = [RSec 6 12] /\
-  possible equipment_callbacks 2 41 (OReturn (KSentNone 2 42)) = true.
+  possible equipment_callbacks 2 41 (OReturn (KSentNone 2 42)) = true /\
+  dispatch (((99, 1), [KReply 99 2]) :: equipment_callbacks) 99 1 true ORaise = [RS9F5] /\ dispatch (((1, 65), [KReply 1 66]) :: equipment_callbacks) 1 65 true ORaise = [RAbort 1].
 Proof. repeat split. Qed.
